@@ -177,6 +177,28 @@ def _addsub_nonfinite(sign):
     return f
 
 
+def _mul_nonfinite(s, x, rev):
+    if x != x:
+        return x
+    if s > 0:
+        return x
+    if s < 0:
+        return -x
+    return float("nan")
+
+
+def _div_nonfinite(s, x, rev):
+    if x != x:
+        return x
+    if not rev:          # finite / inf
+        return 0.0
+    if s > 0:            # inf / finite
+        return x
+    if s < 0:
+        return -x
+    raise ZeroDivisionError("float division by zero")
+
+
 class SymReal:
     """A finite real number (z3 Real). Exact for order/selection logic on doubles."""
     __slots__ = ("e",)
@@ -188,10 +210,10 @@ class SymReal:
     __radd__ = _real_bin(lambda a, b: a + b, True, nonfinite=_addsub_nonfinite(1))
     __sub__ = _real_bin(lambda a, b: a - b, nonfinite=_addsub_nonfinite(-1))
     __rsub__ = _real_bin(lambda a, b: a - b, True, nonfinite=_addsub_nonfinite(-1))
-    __mul__ = _real_bin(lambda a, b: a * b)
-    __rmul__ = _real_bin(lambda a, b: a * b, True)
-    __truediv__ = _real_bin(lambda a, b: a / b)
-    __rtruediv__ = _real_bin(lambda a, b: a / b, True)
+    __mul__ = _real_bin(lambda a, b: a * b, nonfinite=_mul_nonfinite)
+    __rmul__ = _real_bin(lambda a, b: a * b, True, nonfinite=_mul_nonfinite)
+    __truediv__ = _real_bin(lambda a, b: a / b, nonfinite=_div_nonfinite)
+    __rtruediv__ = _real_bin(lambda a, b: a / b, True, nonfinite=_div_nonfinite)
     __lt__ = _real_cmp("lt")
     __le__ = _real_cmp("le")
     __gt__ = _real_cmp("gt")
